@@ -21,9 +21,14 @@
 (* automatic flushes happen, and a truthful refusal (`false`, nothing      *)
 (* changed) of update/status/remove once the documented capacity of the    *)
 (* update section (UpdCap un-flushed entries) has been reached.            *)
-(* pend/dpend are ghosts (position in the update section in memory / in    *)
-(* the last written file) used only by that refusal guard and by the       *)
-(* guard of the known deviation F05a.                                      *)
+(* Ghosts, functions of the inputs and results only:                       *)
+(*   acked/dacked  acknowledged appends since the bucket's update section  *)
+(*          was last emptied by flush / clear / reload (in memory / in the *)
+(*          last written file): an upper bound of its fill level under any *)
+(*          flushing policy; guard of the admissible refusal.              *)
+(*   pend/dpend    the exact fill level under the code's policy (add_entry *)
+(*          flushes a full section, nothing else does); used only by the   *)
+(*          signature of the known deviation F05a.                         *)
 (*                                                                         *)
 (* PStep(p, kb, e) judges one recorded event e (operation, arguments,      *)
 (* result, state read back through lookup / has_entry / iter_entries /     *)
@@ -62,8 +67,8 @@ MapOfView(v)   == [k \in {x \in DOMAIN v : v[x] # Absent} |-> v[k]]
 P0(kb) == [mem   |-> Empty, base |-> Empty,
            log   |-> [b \in UsedB(kb) |-> <<>>],
            dirty |-> [b \in UsedB(kb) |-> FALSE],
-           pend  |-> [b \in UsedB(kb) |-> 0],
-           dpend |-> [b \in UsedB(kb) |-> 0]]
+           acked |-> [b \in UsedB(kb) |-> 0], dacked |-> [b \in UsedB(kb) |-> 0],
+           pend  |-> [b \in UsedB(kb) |-> 0], dpend  |-> [b \in UsedB(kb) |-> 0]]
 BOf(p) == DOMAIN p.pend
 
 PutD(k, v) == [t |-> "put", k |-> k, v |-> v]
@@ -75,8 +80,10 @@ ApplyD(m, d) == IF d.t = "clr" THEN Empty ELSE IF d.v = Absent THEN Del(m, d.k) 
 AfterAdds(pd, n) == IF pd + n <= UpdCap THEN pd + n ELSE ((pd + n - UpdCap - 1) % UpdCap) + 1
 Bump(p, b, n) == [p EXCEPT !.pend[b] = AfterAdds(@, n),
                            !.dpend[b] = IF p.pend[b] + n > UpdCap THEN 0 ELSE @,
+                           !.acked[b] = @ + n,
                            !.dirty[b] = TRUE]
-Full(p, b) == p.pend[b] >= UpdCap
+Full(p, b)      == p.pend[b] >= UpdCap     \* the code's update section is full (signature of F05a)
+MayRefuse(p, b) == p.acked[b] >= UpdCap    \* at least UpdCap acknowledged appends have not been flushed
 
 \* an acknowledged change of key k (v = Absent: removal); n appends were made for it
 PChange(p, kb, k, v, n) ==
@@ -85,6 +92,11 @@ PChange(p, kb, k, v, n) ==
   IN [q EXCEPT !.mem = IF v = Absent THEN Del(p.mem, k) ELSE Put(p.mem, k, v),
                !.log[b] = Append(@, PutD(k, v))]
 
+\* add_entry for the keys <pre><from> .. <pre><from+n-1>, same location
+RECURSIVE PBulk(_, _, _, _)
+PBulk(p, kb, e, i) ==
+  IF i = e.n THEN p ELSE PBulk(PChange(p, kb, e.pre \o ToString(e.from + i), e.loc, 1), kb, e, i + 1)
+
 PFlushSet(p, kb, B) ==   \* flush_updates_for_bucket for every bucket in B
   LET W  == {b \in B \cap BOf(p) : p.dirty[b]}                 \* buckets that must reach the disk
       KW == {k \in DOMAIN kb : kb[k] \in W}
@@ -92,16 +104,19 @@ PFlushSet(p, kb, B) ==   \* flush_updates_for_bucket for every bucket in B
                !.log   = [b \in BOf(p) |-> IF b \in W THEN <<>> ELSE p.log[b]],
                !.dirty = [b \in BOf(p) |-> IF b \in B THEN FALSE ELSE p.dirty[b]],
                !.dpend = [b \in BOf(p) |-> IF b \in B /\ (p.dirty[b] \/ p.pend[b] > 0) THEN 0 ELSE p.dpend[b]],
-               !.pend  = [b \in BOf(p) |-> IF b \in B THEN 0 ELSE p.pend[b]]]
+               !.pend  = [b \in BOf(p) |-> IF b \in B THEN 0 ELSE p.pend[b]],
+               !.dacked = [b \in BOf(p) |-> IF b \in B /\ (p.dirty[b] \/ p.acked[b] > 0) THEN 0 ELSE p.dacked[b]],
+               !.acked = [b \in BOf(p) |-> IF b \in B THEN 0 ELSE p.acked[b]]]
 
-PSave(p) == [p EXCEPT !.base = p.mem, !.log = [b \in BOf(p) |-> <<>>], !.dpend = p.pend]
+PSave(p) == [p EXCEPT !.base = p.mem, !.log = [b \in BOf(p) |-> <<>>], !.dpend = p.pend, !.dacked = p.acked]
 
 PClearSet(p, kb, B) ==
   LET KB == {k \in DOMAIN kb : kb[k] \in B}
   IN [p EXCEPT !.mem   = Drop(p.mem, KB),
                !.log   = [b \in BOf(p) |-> IF b \in B THEN Append(p.log[b], ClrD) ELSE p.log[b]],
                !.dirty = [b \in BOf(p) |-> IF b \in B THEN FALSE ELSE p.dirty[b]],
-               !.pend  = [b \in BOf(p) |-> IF b \in B THEN 0 ELSE p.pend[b]]]
+               !.pend  = [b \in BOf(p) |-> IF b \in B THEN 0 ELSE p.pend[b]],
+               !.acked = [b \in BOf(p) |-> IF b \in B THEN 0 ELSE p.acked[b]]]
 
 \* some durable snapshot of one bucket (base + a prefix of the log) equals tgt;
 \* with lossZ, a snapshot that contains the all-zero key may come back without it (F05b)
@@ -117,7 +132,7 @@ ReloadOK(p, kb, om, lossZ) ==
 PReloaded(p, om) ==
   [mem |-> om, base |-> om,
    log |-> [b \in BOf(p) |-> <<>>], dirty |-> [b \in BOf(p) |-> FALSE],
-   pend |-> p.dpend, dpend |-> p.dpend]
+   acked |-> p.dacked, dacked |-> p.dacked, pend |-> p.dpend, dpend |-> p.dpend]
 
 \* the recorded projection agrees with the map m
 ObsOK(m, kb, o) ==
@@ -138,19 +153,21 @@ Expect(p, kb, e) ==
          [st |-> PChange(p, kb, e.k, e.loc, 1), rok |-> e.res = "ok"]
     [] e.op = "fill" ->     \* n >= 1 calls of add_entry(k, loc)
          [st |-> IF e.n >= 1 THEN PChange(p, kb, e.k, e.loc, e.n) ELSE p, rok |-> e.res \in {"ok", "noflush"} /\ e.n >= 1]
+    [] e.op = "bulk" ->
+         [st |-> PBulk(p, kb, e, 0), rok |-> e.res = "ok"]
     [] e.op = "update" ->
          IF e.k \notin DOMAIN p.mem THEN [st |-> p, rok |-> e.res = "false"]
          ELSE IF e.res = "true" THEN [st |-> PChange(p, kb, e.k, e.loc, 1), rok |-> TRUE]
-         ELSE [st |-> p, rok |-> e.res = "false" /\ Full(p, kb[e.k])]
+         ELSE [st |-> p, rok |-> e.res = "false" /\ MayRefuse(p, kb[e.k])]
     [] e.op = "status" ->
          IF e.k \notin DOMAIN p.mem THEN [st |-> p, rok |-> e.res = "false"]
          ELSE IF e.res = "true"
               THEN [st |-> IF e.st = "delete" THEN PChange(p, kb, e.k, Absent, 1) ELSE Bump(p, kb[e.k], 1), rok |-> TRUE]
-         ELSE [st |-> p, rok |-> e.res = "false" /\ Full(p, kb[e.k])]
+         ELSE [st |-> p, rok |-> e.res = "false" /\ MayRefuse(p, kb[e.k])]
     [] e.op = "remove" ->
          IF e.k \notin DOMAIN p.mem THEN [st |-> p, rok |-> e.res = "false"]
          ELSE IF e.res = "true" THEN [st |-> PChange(p, kb, e.k, Absent, 1), rok |-> TRUE]
-         ELSE [st |-> p, rok |-> e.res = "false" /\ Full(p, kb[e.k])]
+         ELSE [st |-> p, rok |-> e.res = "false" /\ MayRefuse(p, kb[e.k])]
     [] e.op = "flush" ->
          [st |-> PFlushSet(p, kb, {e.b}), rok |-> e.res = "ok"]
     [] e.op = "flush_all" ->
